@@ -339,6 +339,8 @@ class EvalFunc:
         self.code_str = code_str
         self.trigger = []
         self.trigger_service = set()
+        # time of the last accepted trigger: hold_off is per function, shared by all its trigger tasks
+        self.hold_off_last_time = None
         self.has_closure = False
         self.own_cells = set()
         self.async_func = async_func
